@@ -35,7 +35,7 @@ PROPS['C12'] = dict(
     rule='cases = (layout, 2^24-value chunk): every one of the 2^32 torus values decomposed (1024 consecutive values per polynomial) '
          'and checked against the digit relation; (layout) position sweep: 2^16 values at all positions; (layout,k) TLWE wrapper. '
          'Every value is a distinct non-trivial case (each has its own digit vector); optim (AVX2 asm) and debug (scalar C) digests of all digits per chunk must be equal',
-    bounds={'quick': 'all 2^32 values x layouts (3,7),(2,10),(4,8),(1,1) on optim; (3,7),(2,10) on debug with per-chunk digest equality; positions; TLWE wrapper k=1,2',
+    bounds={'quick': 'all 2^32 values x layouts (3,7),(2,10),(4,8),(1,1) on optim; (3,7),(2,10) on debug with per-chunk digest equality; positions; TLWE wrapper k=1,2; ring degrees 8..8192 x 4 layouts x 7 contents (zero, constant, unit, seeded)',
             'thorough': 'all 2^32 values x 13 layouts (incl. l*Bgbit=32: (4,8),(32,1),(2,16),(16,2); Bgbit=2; (1,30)) on optim and debug, digest equality on every chunk'},
     assumptions=['N=1024 (the only ring size the FFT back-ends accept); the decomposition code is shared by the five back-ends (one core object), so it is run on one',
                  'Bgbit<=30 so that Bg fits its int32_t field'],
@@ -56,7 +56,7 @@ PROPS['C11'] = dict(
     rule='cases = (N, a) for the three monomial routines on 7 contents; (N) group law X^a X^b; (N, i) basis rows: all pairs (X^i, c X^j) '
          'through Naive/Karatsuba/AddMulR/SubMulR; (N, content_a, content_b) full vectors; (N, c1, c2) coefficient-wise ops x 9 scalars. '
          'Non-trivial = every case (all operands non-zero); oracle = explicit-index / wrapping 64-bit exact product',
-    bounds={'quick': 'N in {1..2048}: every a in [0,2N); all basis pairs for N<=128 (optim) / N<=32 (debug), wrap-boundary j set above; 36 full-vector pairs; aliased calls (AddMulZ/SubMulZ r=p1, r=p2, all equal; AddTo(r,r); AddMulZTo(r,p,r); Karatsuba family with result = torus operand) x 6 contents x 9 scalars; guard pages after (optim) / before (debug)',
+    bounds={'quick': 'N in {1..2048}: every a in [0,2N); all basis pairs for N<=128 (optim) / N<=32 (debug), wrap-boundary j set above; 36 full-vector pairs; aliased calls (AddMulZ/SubMulZ r=p1, r=p2, all equal; AddTo(r,r); AddMulZTo(r,p,r); Karatsuba family with result = torus operand) x 6 contents x 9 scalars; operands write-protected during every product; N=4096, 8192 for the four product routines; guard pages after (optim) / before (debug)',
             'thorough': 'all basis pairs for N<=512 (optim) / N<=256 (debug); the rest as quick'},
     assumptions=['the routines are bilinear over Z/2^32 (ring operations only, no data-dependent control flow): agreement on all basis pairs is agreement on all inputs; extreme and seeded full vectors are added to notice a change that breaks that premise',
                  'polynomial code is shared by the five back-ends; run on one'],
@@ -80,7 +80,7 @@ PROPS['C14'] = dict(
     rule='cases = (n, op, p, aliasing, content1, content2) for 8 LWE ops, n in 1..40 + {500,630,1023,1024,1025,2048}; (N,k,op,variant,content) for 10 TLWE ops, '
          'N in 2..1024, k in 1..3 (all a in [0,2N) for N<=64); (N,k,content,j) extraction for every j. Non-trivial = n not a multiple of 8, or n<8, or p not in {0,1}; all TLWE/extraction cases. '
          'Oracle: coefficient arrays and phases (3 keys) equal exact wrapping arithmetic; variance annotation; guard pages after/before every heap block (sees the inline-asm accesses ASan cannot)',
-    bounds={'quick': 'full case product on optim (guard after, guard before), debug (guard after), asan', 'thorough': '+ asan-debug, + fftw back-end'},
+    bounds={'quick': 'full case product on optim (guard after, guard before), debug (guard after), asan; ring degrees that are not powers of two (3..1023); library phase / decryption read before and after every in-place operation', 'thorough': '+ asan-debug, + fftw back-end'},
     assumptions=['LWE/TLWE linear code is in the core objects shared by all back-ends', 'variance annotation checked for |p| < 2^15 as the property states'],
     jobs=_c14,
 )
@@ -104,7 +104,7 @@ PROPS['C08'] = dict(
          'through lweKeySwitch; boundary alphabet (+-64 around every digit-carry boundary, 0, 2^31, 2^32-1) for 10 layouts x {noiseless, noisy key}; '
          '(n_in, n_out, layout, key kind, content) dimension pairs. Oracle: exact equality phase_out-phase_in = s(a-round_t(a)) - sum of the errors of the rows used '
          '(errors known from the secret keys; either neighbour accepted on an exact rounding tie). every case non-trivial (key bit 1 or noisy rows)',
-    bounds={'quick': 'default layout (8,2), n_out=8: residue class a = VERIF_SEED (mod 64) of all 2^32 values for noiseless and noisy keys; boundary alphabet for 10 layouts; 36 dimension pairs x 12 contents under guard pages / ASan; key-switching keys embedded in bootstrapping keys (k in 1..3, 7 cells): bk->ks and the copy in the FFT key exact and bit-identical, unchanged after bk is re-keyed / deleted; every library-generated row within 10 sigma',
+    bounds={'quick': 'default layout (8,2), n_out=8: residue class a = VERIF_SEED (mod 64) of all 2^32 values for noiseless and noisy keys; boundary alphabet for 10 layouts; 36 dimension pairs x 12 contents under guard pages / ASan; key-switching keys embedded in bootstrapping keys (k in 1..3, 7 cells): bk->ks and the copy in the FFT key exact and bit-identical, unchanged after bk is re-keyed / deleted; every library-generated row within 10 sigma; keys generated by the library with noise 0 exact for 15 layouts up to t*basebit=31, first and second generation',
             'thorough': 'all 2^32 values of a for (8,2) noiseless+noisy and (31,1),(15,2),(16,1),(3,10),(1,1) noiseless, residue class mod 16 for the others; 49 dimension pairs'},
     assumptions=['key-switching code is in the core objects shared by all back-ends', 'rounding ties (a exactly half-way between two multiples of 2^(32-t*basebit)) may go either way'],
     jobs=_c08,
@@ -116,7 +116,7 @@ PROPS['C19'] = dict(
     level='exploration',
     rule='cases = lambda in [-5,300] + {INT32_MIN, INT32_MAX}, each in a forked child, per library variant, plus all 64 ordered triples over {1,80,81,128} requested in one process; oracle: SIGABRT outside [1,128]; documented 80-bit set '
          'for 1..80 and documented 128-bit set (README table) for 81..128 field by field; derived fields recomputed; structural constraints; formula noise <= bound and >= 12 sigma margin. every case is non-trivial',
-    bounds={'quick': 'all 308 lambda x 5 back-ends (optim) + debug; every sequence of <= 4 operations over {request 80/128 here, request 80/128 on a worker thread that exits, delete oldest, delete newest}, every live set re-checked after every operation', 'thorough': 'all 308 lambda x 5 back-ends x {optim, debug}'},
+    bounds={'quick': 'all 308 lambda + 100 values that alias a valid request when narrowed or negated x 5 back-ends (optim) + debug; every sequence of <= 4 operations over {request 80/128 here, request 80/128 on a worker thread that exits, delete oldest, delete newest}, every live set re-checked after every operation', 'thorough': 'all 308 lambda x 5 back-ends x {optim, debug}'},
     assumptions=['documented values are those of README.md (128-bit: n=630, 2^-15, N=1024, 2^-25) and of the 2016 historic set for 80-bit', 'noise formulas: average-case CGGI (Bg^2/12 digits), bounds 0.0037/0.0047 from the property text'],
     min_outcomes=3,
     jobs=lambda tier, seed: sum([J('c19.cpp', 'optim', be, n=2) for be in BE], []) + (sum([J('c19.cpp', 'debug', be, n=2) for be in BE], []) if tier == 'thorough' else J('c19.cpp', 'debug', n=2)),
@@ -130,7 +130,7 @@ PROPS['C20'] = dict(
     rule='cases = (API function) x 10 libraries [defined-with-C-linkage must agree], (header, language) compiled alone, (structure|field) sizeof/offsetof C vs C++, '
          '(language, build, back-end) behavioural dump, spqlios assembly offsets. The API, the header closure and the structure list are computed from the working tree at check time. '
          'non-trivial = API function defined somewhere, every header/field/dump case',
-    bounds={'quick': 'complete: 5 back-ends x {optim, debug}, every header of the include closure of tfhe.h, every public structure and field; the dump program uses Lagrange objects from C (array of 3, every element a destination; caller-provided storage between guard words; in-place Mul/AddMul)', 'thorough': 'same (the space is small and fully enumerated)'},
+    bounds={'quick': 'complete: 5 back-ends x {optim, debug}, every header of the include closure of tfhe.h, every public structure and field; the dump program uses Lagrange objects from C (array of 3, every element a destination; caller-provided storage between guard words; in-place Mul/AddMul; callee-saved registers across the assembly routines; 4-byte aligned polynomial views)', 'thorough': 'same (the space is small and fully enumerated)'},
     assumptions=['public API = functions declared EXPORT in the include closure of tfhe.h', 'functions declared but defined in no variant are consistent (reported as information)'],
     min_outcomes=3,
     jobs=lambda tier, seed: [dict(harness='c20.py', variant='optim', backend='all', needs_variants=['debug'])],
@@ -231,7 +231,7 @@ PROPS['C17'] = dict(
     rule='cases = (parameter set, key seed, transport): both default sets and four small custom sets (n in {8,9}, k in {1,2}, N=1024). oracle: exact length formula from the parameters; key-switch '
          'section = three public integers; cloud bytes strict prefix of the secret export, remainder = exactly the two key sections; LWE key / every ring key polynomial / concatenated ring key '
          'searched at every offset in 8 encodings (>=16 bytes) + half-overlapping windows; import with generator snapshot equal, open/fopen/read/getrandom/rand unreachable; structure holds 3 pointers. every case non-trivial',
-    bounds={'quick': '6 parameter sets x 1 seed x 2 transports (80-bit default: FILE only); linear attack modulo 2 on the exported key-switching rows (n+64 equations) and bootstrapping-key rows (kN+64 equations)', 'thorough': '6 parameter sets x 3 seeds x 2 transports, spqlios-fma + fftw'},
+    bounds={'quick': '8 parameter sets (two with noise parameters exactly 0: no zero-mask row) x 1 seed x 2 transports (80-bit default: FILE only); linear attack modulo 2 on the exported key-switching rows (n+64 equations) and bootstrapping-key rows (kN+64 equations)', 'thorough': '6 parameter sets x 3 seeds x 2 transports, spqlios-fma + fftw'},
     assumptions=['encodings shorter than 16 bytes are not searched (chance matches); the vacuity guard requires the same search to find the keys in the secret export'],
     jobs=lambda tier, seed: J('c17.cpp', 'optim', 'spqlios-fma', n=6, ldflags='-ldl') + (J('c17.cpp', 'debug', 'fftw', n=6, ldflags='-ldl') if tier == 'thorough' else []),
 )
@@ -297,7 +297,7 @@ PROPS['C09'] = dict(
     rule='cases = (k, l, Bgbit, row kind, message m, position j, TLWE content) through the three external-product variants; (n, k, l, Bgbit, exponent vector) through tfhe_blindRotate[_FFT]. TGSW rows are built by the harness '
          'with exact arithmetic and known errors e_p. oracle: phase(result) - m*phase(c) - sum dec_p*e_p within |m|_1 (1+kN) 2^(32-l Bgbit) + FFT budget (exact gadget + noiseless rows: FFT rounding only); variants agree at ciphertext level; '
          'phase(acc_out) = X^(sum bara_i s_i) phase(acc_in); all-zero exponents leave the accumulator bit-identical. non-trivial = m != 0 and c non-trivial; rotations with a non-zero exponent',
-    bounds={'quick': '9 (k,l,Bgbit) cells incl. (8,4),(2,16),(1,8); m in {0,1,-1,X^1,X^512,X^1023,1+X,-X^(N-1),small-norm}; 6 TLWE contents; noisy rows for two layouts; n=1: bara = VERIF_SEED mod 16 class + boundaries, n=2,3: {0,1,N-1,N,N+1,2N-1}^n',
+    bounds={'quick': '14 (k,l,Bgbit) cells incl. (8,4),(2,16),(1,8),(32,1),(20,1),(16,2),(2,15), k=3; m in {0,1,-1,X^1,X^512,X^1023,1+X,-X^(N-1),small-norm}; 6 TLWE contents; noisy rows for two layouts; n=1: bara = VERIF_SEED mod 16 class + boundaries, n=2,3: {0,1,N-1,N,N+1,2N-1}^n',
             'thorough': 'X^j for every j on the default 80-bit layout (stride 97 elsewhere); every bara in [0,2N) for n=1; 5 back-ends'},
     assumptions=['digits dec_p are those the library produces for a copy of the input (their correctness is C12)', 'FFT budget per product 2*max(1,Bg/2^10) units per coefficient, amplified by (1+kN) at phase level'],
     jobs=_c09,
@@ -320,7 +320,7 @@ PROPS['C15'] = dict(
     rule='cases = (key set, gate, truth row, aliasing pattern) with patterns: unary {A,R}; binary {AB,RB,AR,AA,RR}; MUX {ABC,RBC,ARC,ABR,AAC,ABB,ABA,AAA,RRC,ARR,RBR,RRR} (R = the result object); '
          '(parameter cell, evaluation function, content) for 17 evaluation functions. oracle: aliased result bytes == result of the same call on distinct copies; every non-result input byte-identical; deep hash of the '
          'cloud key (parameters, key-switching rows, TGSW rows, FFT image) unchanged; generator state (operator<<) unchanged. non-trivial = call that bootstraps or decomposes',
-    bounds={'quick': 'tiny exact key (n=8): all gates x all rows x all patterns; 5 parameter cells (incl. l=1, k=2, exact gadgets) x 17 functions x 4 contents; default 128-bit key: 3 rows per gate x all patterns', 'thorough': '+ 80-bit default key, 4 back-ends'},
+    bounds={'quick': 'tiny exact key (n=8): all gates x all rows x all patterns; 5 parameter cells (incl. l=1, k=2, exact gadgets) x 17 functions x 4 contents; default 128-bit key: 3 rows per gate x all patterns; on spqlios-avx and fftw with the guard allocator: key set and inputs write-protected during every call', 'thorough': '+ 80-bit default key, 4 back-ends'},
     assumptions=['evaluation is deterministic (C06), so an aliased call can be compared byte-for-byte with the unaliased one'],
     jobs=_c15,
 )
@@ -416,7 +416,7 @@ PROPS['C07'] = dict(
          'population moments judged on the merged sums (mean, stdev/sigma, kurtosis, tails, byte histograms, lag-1 correlation). (b) (parameter set, key seed): error of every key-switching row and every bootstrapping-key coefficient '
          'computed with the secret keys, stratified by digit/value/key bit/block/row/lane: stdev within 8 estimator sigma (+1.5 units) of the configured level, |e| <= 8 sigma, h=0 rows trivial, masks flat, keys binary and balanced, '
          're-keyed objects. (c) (seed, history pair): re-seeding reproduces the same bytes after any history; different seeds differ; no other entropy source reached. non-trivial = state / stratum with >= 200 errors / non-empty history',
-    bounds={'quick': 'states: 1/64 of all 2^31 states (3.3e7) for sigma in {2^-30,2^-25,2^-15}; objects: default-128, default-80 (1 seed) + 8 small sets x 2 seeds (per-stratum judgement of the key-switching rows; the key-switching key inside the FFT key = the generated rows); seeding: 3 seeds x 11x11 history pairs',
+    bounds={'quick': 'states: 1/64 of all 2^31 states (3.3e7) for sigma in {2^-30,2^-25,2^-15}; objects: default-128, default-80 (1 seed) + 8 small sets + 2 noiseless sets x 2 seeds, each small set generated a second time into the same objects (per-stratum judgement of the key-switching rows; the key-switching key inside the FFT key = the generated rows); seeding: 3 seeds x 11x11 history pairs',
             'thorough': 'all 2^31-2 states x 7 sigma; default sets x 4 seeds, 24 small sets x 8 seeds; two back-ends'},
     assumptions=['distributions depend on libstdc++ normal_distribution / uniform_int_distribution (trusted base)', 'statistical acceptance regions are >= 8 estimator standard deviations wide, as the property prescribes'],
     jobs=_c07, post=_c07_post, max_report=10,
@@ -482,7 +482,7 @@ PROPS['C16'] = dict(
          'with 0/1/3 elements, the four deletions in one of the 24 orders - all 24 on the small default-layout cells -, collector finalize), run twice; (concurrent threads, FFT uses) thread create/use/exit histories x 5 back-ends. '
          'oracles by job: guard pages after / before every heap block on the optim build (inline asm and .s accesses), ASan+UBSan build, digests equal under two different fill patterns of fresh memory (xcmp), live heap blocks stationary. '
          'non-trivial = every cell (a full lifecycle) / thread history with FFT use',
-    bounds={'quick': 'n in {1,7,8,9,1025} x k in {1,2} with the default layouts, the (l,Bgbit) and (t,basebit) grids for n<=9,k=1, one k=2 n=1025 cell; key material <= 64 MB per cell; thread histories 1-3 threads x {0,1,3} uses x 5 back-ends; 10 ownership hand-off histories (Lagrange / TGSW-FFT / key-set objects made by a thread that exits, used and deleted by another) x 5 back-ends under guard pages + ASan',
+    bounds={'quick': 'n in {1,7,8,9,1025} x k in {1,2} with the default layouts, the (l,Bgbit) and (t,basebit) grids for n<=9,k=1, one k=2 n=1025 cell; key material <= 64 MB per cell; thread histories 1-3 threads x {0,1,3} uses x 5 back-ends; 10 ownership hand-off histories (Lagrange / TGSW-FFT / key-set objects made by a thread that exits, used and deleted by another) x 5 back-ends under guard pages + ASan; alloc/init/destroy/init/destroy/free cycles for 17 types x {single, array of 0, 1, 3}; noiseless twins of the small default-layout cells',
             'thorough': 'whole matrix n in {1,3,7,8,9,500,630,1024,1025,1100} x k x 6 (l,Bgbit) x 5 (t,basebit) with key material <= 300 MB (excluded cells listed in the evidence); + asan-debug/fftw, guard pages on fftw and nayuki-avx, valgrind memcheck on the vg build for a reduced matrix (n in {1,7,9})'},
     assumptions=['valgrind memcheck cannot execute the -march=native build on this CPU (AVX-512); guard pages on the real optim build are the oracle for the assembly paths', 'guard pages: at most ~24000 live guarded blocks (vm.max_map_count); the rest is served unguarded and counted'],
     jobs=_c16, max_report=10,
